@@ -26,8 +26,10 @@ Norm(v) == IF v.t = "b" THEN (IF Len(v.v) > BIG THEN [t |-> "big", v |-> <<>>] E
 
 \* C11 cost-model constants (documented in DESIGN.md section 6/C11)
 WEIGH_C1 == 4            \* weigh_work <= WEIGH_C1 * n^2 + 16
-ALLOC_C0 == 65536        \* bytes allocated while executing <= ALLOC_C0 + ALLOC_C1 * weight
+ALLOC_C0 == 65536        \* peak bytes live while executing <= ALLOC_C0 + ALLOC_C1 * weight
 ALLOC_C1 == 4096
+ALLOC_T0 == 1048576      \* total bytes allocated while executing <= ALLOC_T0 + ALLOC_T1 * weight (deep shared structures re-allocate a path per append)
+ALLOC_T1 == 65536
 
 Verdicts(r) ==
     LET out == IF r.norun THEN [res |-> r.res, steps |-> r.steps, pcsum |-> r.pcsum, maxdepth |-> r.maxdepth]
@@ -48,8 +50,10 @@ Verdicts(r) ==
         \cup (IF ~r.wpanic /\ (r.capped \/ Gt(FromInt(r.steps), r.weight))
               THEN {<<"C11", "executed more instructions than the weight">>} ELSE {})
         \cup (IF Gt(FromInt(out.steps), w) THEN {<<"C11", "specification itself exceeds weight (design)">>} ELSE {})
-        \cup (IF Gt(FromInt(r.alloc), Add(FromInt(ALLOC_C0), MulSmall(w, ALLOC_C1)))
-              THEN {<<"C11", "memory allocated while executing exceeds the cost model (bytes materialised without being paid for)">>} ELSE {})
+        \cup (IF Gt(FromInt(r.peak), Add(FromInt(ALLOC_C0), MulSmall(w, ALLOC_C1)))
+              THEN {<<"C11", "peak memory while executing exceeds the cost model (bytes materialised without being paid for)">>} ELSE {})
+        \cup (IF Gt(FromInt(r.alloc), Add(FromInt(ALLOC_T0), MulSmall(w, ALLOC_T1)))
+              THEN {<<"C11", "total allocation while executing exceeds the cost model">>} ELSE {})
         \cup (IF r.work > WEIGH_C1 * n * n + 16 THEN {<<"C11", "weighing cost super-quadratic in program length">>} ELSE {})
 
 Init == l = 1
